@@ -2,7 +2,7 @@
 # tools/seedimport.sh Cnn : copies the sub-agent's results for property Cnn from /tmp/out-Cnn into /verif/seeded/Cnn-A and Cnn-B
 set -u
 id="$1"; cd "$(dirname "$0")/.."
-for x in A B C D E F G H I J K L; do
+for x in A B C D E F G H I J K L M N; do
   [ -f "/tmp/out-$id/patch-$x.diff" ] || continue
   d="seeded/$id-$x"; [ -d "$d" ] && continue   # already imported: keep its results
   mkdir -p "$d"
